@@ -219,10 +219,12 @@ def forcing_mirror(prog: Program, rep: Report) -> None:
     for c in (0.0, 0.5):
         rf, sf, itf, _ = roms.velocity_samples(prog, reversal=False, frac=NF.const(c))
         rr, sr, itr, _ = roms.velocity_samples(prog, reversal=True, frac=NF.const(c))
+        ef = roms.effective_fields(rf, sf, itf)
+        er = roms.effective_fields(rr, sr, itr)
         for i, comp in enumerate(("u", "v")):
-            ff = [s.field_nf for s in sf if any(f"'{comp}'" in a for a in roms.atoms_of(s.field_nf))]
-            fr_ = [s.field_nf for s in sr if any(f"'{comp}'" in a for a in roms.atoms_of(s.field_nf))]
-            ok = len(ff) == 1 and len(fr_) == 1 and isinstance(itf.num(ff[0]), NF) and isinstance(itr.num(fr_[0]), NF) and itr.num(fr_[0]) == -itf.num(ff[0])
+            ff = [f for f in ef if f is not None and any(f"'{comp}'" in a for a in f.atoms())]
+            fr_ = [f for f in er if f is not None and any(f"'{comp}'" in a for a in f.atoms())]
+            ok = len(ff) == 1 and len(fr_) == 1 and fr_[0] == -ff[0]
             rep.check(rule, vel.qual, f"velocity({comp}, fractional_step={c:g}): reversed = -forward", ok, what_bad=f"forward {[vtext(x) for x in ff]}, reversed {[vtext(x) for x in fr_]}", what_ok="negated", loc=vel.loc())
     # time_reversal flag comes from the timer
     init = prog.role_func("forcing", "__init__")
